@@ -120,7 +120,7 @@ Inductive hostcall :=
 | HCtxGet (task : N) (null : bool)
 | HCtxSet (task : N) (null : bool)
 | HTrap (t : trap)
-| HNote (tag a b : N).   (* an observation a driver adds to the same total order (rtmock [host::log]) *)
+| HNote (tag : N) (args : list N).   (* an observation a driver adds to the same total order (rtmock [host::log]) *)
 
 Record host := mkHost {
   table : list (N * entry);
@@ -158,7 +158,8 @@ Definition h_emit (c : hostcall) h := mkHost (table h) (free h) (next h) (joined
 
 Definition h_trap (t : trap) (h : host) : host := h_emit (HTrap t) h.
 Definition h_trap_if (b : bool) (t : trap) (h : host) : host := if b then h_trap t h else h.
-Definition h_note (tag a b : N) (h : host) : host := h_emit (HNote tag a b) h.
+Definition h_note (tag : N) (args : list N) (h : host) : host := h_emit (HNote tag args) h.
+Definition h_clear_log (h : host) : host := mkHost (table h) (free h) (next h) (joined h) (ready h) (chans h) (answers h) (picks h) (ctx h) (cur_task h) (backpressure h) [].
 
 (** Inputs: queue an answer / a pick (rtmock [push_answer], [push_pick]). *)
 Definition h_push_answer (v : N) (h : host) : host := set_answers (answers h ++ [v]) h.
@@ -567,3 +568,54 @@ Definition h_task_cancel (h : host) : host := h_emit HTaskCancel h.
 (** Number of traps recorded so far. *)
 Definition h_ntraps (h : host) : nat :=
   length (filter (fun c => match c with HTrap _ => true | _ => false end) (hlog h)).
+
+(** ** The harness-owned mock task ([rtmock::drive::MockTask])
+
+    Not part of the host: a [wasip3_task] (C ABI v1 or v2) that the drivers own and that mirrors
+    what the real [SharedTaskState] does (join on register, [join(w,0)] on unregister/deliver).
+    Its actions are logged as notes in the same total order as the host calls.  The registration
+    map sends a waitable to the identity of the registered callback pointer (an operation id). *)
+From Coq Require Import ZArith.
+
+Definition T_TREG := 9.       (* treg:T:W *)
+Definition T_TUNREG := 10.    (* tunreg:T:W *)
+Definition T_TCLONE := 11.    (* tclone:T *)
+Definition T_TDROP := 12.     (* tdrop:T *)
+Definition T_TDELIVER := 13.  (* tdeliver:T:W:C *)
+
+Record mtask := mkTask {
+  t_id : N;
+  t_v2 : bool;
+  t_map : list (N * N);
+  t_set : option N;
+  t_clones : Z
+}.
+Definition mtask_init (id : N) (v2 : bool) : mtask := mkTask id v2 [] None 0%Z.
+
+(** [waitable_register]: returns the previous callback pointer of [w], if any. *)
+Definition mt_register (w ptr : N) (th : mtask * host) : mtask * host * option N :=
+  let (t, h) := th in
+  let h := h_note T_TREG [t_id t; w] h in
+  let '(h, s) := match t_set t with Some s => (h, s) | None => h_set_new h end in
+  let h := h_join w s h in
+  (mkTask (t_id t) (t_v2 t) (aset w ptr (t_map t)) (Some s) (t_clones t), h, alookup w (t_map t)).
+
+Definition mt_unregister (w : N) (th : mtask * host) : mtask * host * option N :=
+  let (t, h) := th in
+  let h := h_note T_TUNREG [t_id t; w] h in
+  let h := h_join w 0 h in
+  (mkTask (t_id t) (t_v2 t) (aremove w (t_map t)) (t_set t) (t_clones t), h, alookup w (t_map t)).
+
+(** [deliver]: what [TaskState::deliver_waitable_event] does; returns the callback pointer to call. *)
+Definition mt_deliver (w code : N) (th : mtask * host) : mtask * host * option N :=
+  let (t, h) := th in
+  let h := h_note T_TDELIVER [t_id t; w; code] h in
+  let h := h_join w 0 h in
+  (mkTask (t_id t) (t_v2 t) (aremove w (t_map t)) (t_set t) (t_clones t), h, alookup w (t_map t)).
+
+Definition mt_clone (th : mtask * host) : mtask * host :=
+  let (t, h) := th in
+  (mkTask (t_id t) (t_v2 t) (t_map t) (t_set t) (t_clones t + 1)%Z, h_note T_TCLONE [t_id t] h).
+Definition mt_drop (th : mtask * host) : mtask * host :=
+  let (t, h) := th in
+  (mkTask (t_id t) (t_v2 t) (t_map t) (t_set t) (t_clones t - 1)%Z, h_note T_TDROP [t_id t] h).
